@@ -98,9 +98,44 @@ class JsonSites:
             s = p[1].get('str', '')
             ok = not re.search(r'["\\\x00-\x1f]', s)
             return ok, 'literal %r' % s
+        if p[0] == 'other' and p[1] == 'multi-def local' and o.get('k') in ('copy', 'move'):
+            # a value with several definitions (early `return format!(..)` and a tail expression): every one must be safe
+            l_ = o['pl']['l']
+            seen_ = set()
+            while True:
+                defs_ = [x for x in du(fn).defs.get(l_, []) if x['kind'] in ('assign', 'call')]
+                if len(defs_) == 1 and defs_[0]['kind'] == 'assign' and defs_[0]['rv']['k'] == 'use' \
+                        and defs_[0]['rv']['op'].get('k') in ('copy', 'move') and 'p' not in defs_[0]['rv']['op']['pl'] \
+                        and l_ not in seen_:
+                    seen_.add(l_)
+                    l_ = defs_[0]['rv']['op']['pl']['l']
+                    continue
+                break
+            if len(defs_) > 1 and 'p' not in o['pl']:
+                whys = []
+                for df in defs_:
+                    if df['kind'] == 'call':
+                        ok_, why_ = self.safe_call(fn, df['term'], df['bb'], depth + 1)
+                    elif df['rv']['k'] == 'use':
+                        ok_, why_ = self.safe_value(fn, df['rv']['op'], ty, depth + 1)
+                    else:
+                        ok_, why_ = False, 'definition by ' + df['rv']['k']
+                    if not ok_:
+                        return False, why_
+                    whys.append(why_)
+                return True, 'every definition safe (%s)' % '; '.join(whys[:3])
         if p[0] == 'call':
-            t = p[2]
+            return self.safe_call(fn, p[2], p[1], depth)
+        if p[0] == 'arg':
+            return False, 'parameter %d (raw)' % p[1]
+        return False, str(p[:2])
+
+    def safe_call(self, fn, t, tbb, depth):
+        if True:
             cs = callee_short(t)
+            if cs.rsplit('::', 1)[-1] in ('must_use', 'into', 'clone', 'to_owned', 'unwrap_or_default') and t['args'] \
+                    and not cs.startswith('player::'):
+                return self.safe_value(fn, t['args'][0], 'String', depth + 1)
             if cs.endswith('escape_json_string'):
                 return True, 'escape_json_string(..)'
             if cs in ('ser::to_string', 'serde_json::to_string') or 'serde_json::ser::to_string' in (t['f'].get('def') or ''):
@@ -117,10 +152,19 @@ class JsonSites:
                 return sep_ok and els_ok, 'join(%s)' % why
             if cs in ('<T as ToString>::to_string', 'usize::to_string') and (t['f'].get('targs') or ['?'])[0] in INT_TYPES:
                 return True, 'integer to_string'
+            # a helper of the tool itself whose result is built only from safe fragments (json_quote(s) =
+            # format!("\"{}\"", escape_json_string(s)); a list helper joining such fragments)
+            h = self.prog.fns.get(callee(t))
+            if h is not None and h.crate == 'rinklecate' and not h.short.endswith('escape_json_string') and depth < 10:
+                mk = ('ret', h.p)
+                if mk not in self.memo:
+                    self.memo[mk] = (False, 'recursive helper %s' % cs)
+                    self.memo[mk] = self.return_safe(h, depth + 1)
+                ok_, why_ = self.memo[mk]
+                if ok_:
+                    return True, 'helper %s returns %s' % (cs, why_)
+                return False, 'result of %s (%s)' % (cs, why_)
             return False, 'result of %s' % cs
-        if p[0] == 'arg':
-            return False, 'parameter %d (raw)' % p[1]
-        return False, str(p[:2])
 
     def site_safe(self, fn, bb, depth=0):
         key = (fn.p, bb)
